@@ -154,7 +154,7 @@ def ensure_runner(timeout=900):
     ok, out = ensure_makefile()
     if not ok:
         return False, out
-    rc, out = sh("make -j16 Model/Obs.vo Model/Conc.vo Model/Server.vo Model/Config.vo Model/PolConc.vo", cwd=COQ, timeout=timeout)
+    rc, out = sh("make -j16 Model/Obs.vo Model/Conc.vo Model/Server.vo Model/Config.vo Model/PolConc.vo Spec/Atomic.vo Spec/AtomicM.vo", cwd=COQ, timeout=timeout)
     if rc != 0:
         return False, out
     model_vos = [os.path.join(COQ, "Model", f) for f in os.listdir(os.path.join(COQ, "Model")) if f.endswith(".vo")]
